@@ -8,6 +8,7 @@ from ..model import own_nodes, AnalysisError
 from ..defuse import closed_text
 from ..paths import expand_self, removal_sites, factmap, call_text, returns, must_call
 from .. import supstates
+from . import shared
 
 OWNED = {'running_identifiers', '_state', 'state', 'forced_state', 'forced_reason', 'expected_exit', 'last_event_mtime'}
 # objects the model allocates itself and does not share (ownership proved by C19.R2): one line of reason each
@@ -164,6 +165,8 @@ def run(P, R):
         pu = P.unit(q)
         rs = [ast.unparse(v) for v, f, n in returns(pu) if v is not None]
         R.check(r3, rs == [want], '%s is `%s`' % (q, want), 'classify|%s' % q, pu.loc(), '%s returns %s' % (q, rs))
+
+    shared.running_definitions(P, R, r3)
 
     # ---------------------------------------------------------------- R4
     r4 = R.rule('R4', 'decision structure of the synthesis', 'state shown: under conflict the most advanced running state '
